@@ -335,25 +335,28 @@ func returnsTrueOnlyAfterInsert(g *ssa.Function, field string) (bool, string) {
 	}
 	nTrue := 0
 	okAll := true
-	eachInstr(g, func(in ssa.Instruction) {
-		ret, ok := in.(*ssa.Return)
-		if !ok || len(ret.Results) != 1 {
-			return
+	gcs := newCondSpace(g, nil)
+	for _, vr := range gcs.VirtualReturns() {
+		// (a merged `return added` is split per way of arriving)
+		if len(vr.Vals) != 1 {
+			continue
 		}
-		if cst, ok := ret.Results[0].(*ssa.Const); ok && cst.Value != nil && cst.Value.String() == "false" {
-			return
+		if cst, ok := stripConv(vr.Vals[0]).(*ssa.Const); ok && cst.Value != nil && cst.Value.String() == "false" {
+			continue
 		}
 		nTrue++
 		dominated := false
 		for _, mu := range inserts {
-			if dominatesInstr(mu, ret) {
+			if dominatesInstr(mu, vr.Ret) {
+				dominated = true
+			} else if imp, _ := gcs.Implies(vr.Cond, gcs.Reach(mu)); imp && mayPrecede(mu, vr.Ret) {
 				dominated = true
 			}
 		}
 		if !dominated {
 			okAll = false
 		}
-	})
+	}
 	if !okAll || nTrue == 0 {
 		return false, ""
 	}
